@@ -79,5 +79,13 @@ def shrink(line, still_bad):
     return vlib.shrink_history(line, still_bad)
 
 
+def known_class(line, impl, mon):
+    # exactly the subtype PTR records of the stopped type are left in the cache (and reported to
+    # a later browse of the subtype); any other leftover is a new violation
+    if stopforget.is_sf(line) and impl.startswith("SF leftover-subptr"):
+        return "C13-subtype-ptr-survives-stop"
+    return None
+
+
 def search(rng, problems, disagreeing):
     return schedlib.generate_histories(rng, "thorough", ID + "s")[:1500]
